@@ -173,7 +173,8 @@ class Exec:
                 self._record(kind, msg, extra); self.solver.pop()
                 raise PathEnd()
             elif prefer is not None: self.solver.pop()
-            self._check()
+            if self._check() != z3.sat:
+                self.solver.pop(); raise PathDead()          # the path condition itself is infeasible: nothing reaches this point
             self._record(kind, msg, extra)
             self.solver.pop()
             raise PathEnd()
@@ -207,7 +208,9 @@ class Exec:
         """a panic site has been reached on a feasible path."""
         if self.h.allow_panic and self.h.allow_panic(msg): raise PathEnd()
         self.stats.obligations += 1
-        self._check(); self._record('panic', msg); self.solver.pop()
+        if self._check() != z3.sat:
+            self.solver.pop(); raise PathDead()
+        self._record('panic', msg); self.solver.pop()
         raise PathEnd()
 
     def where(self):
@@ -1004,6 +1007,9 @@ def explore(h, entry, mk_args, post=None, pre=None, stats=None, max_paths=None, 
     solver.set('timeout', h.query_timeout_ms)
     if seed: solver.set('random_seed', seed)
     for c in (base or []): solver.add(c)
+    if base and solver.check() != z3.sat:
+        stats.dead += 1
+        return stats, violations, incon          # the assumptions of this task are unsatisfiable: nothing to explore
     while pending:
         if max_paths and stats.paths >= max_paths:
             incon.append('path limit %d reached' % max_paths); break
